@@ -115,6 +115,16 @@ def f_valuefrom_other(w, n, src):
     return _step(w, n, et_add(), {"x": {"source": src["int"], "valueFrom": "$(self + inputs.y)"}, "y": "b"}), "int"
 
 
+def _valuefrom_chain(referenced_first):
+    """two inputs with valueFrom, one reading the OTHER through inputs.<name>: it must see the other's source value"""
+    def f(w, n, src):
+        x = {"source": src["int"], "valueFrom": "$(self + 100)"}
+        y = {"source": "b", "valueFrom": "$(self + inputs.x)"}
+        ins = {"x": x, "y": y} if referenced_first else {"y": y, "x": x}
+        return _step(w, n, et_add(), ins), "int"
+    return f
+
+
 def _scatter1(arr):
     def f(w, n, src):
         return _step(w, n, et_inc(), {"x": src.get("int[]") if arr is None else arr}, scatter="x"), "int[]"
@@ -218,6 +228,7 @@ FEATURES = {
     "expr": (f_expr, "int", "tool"), "clt": (f_clt, "int", "tool"), "clt_k": (f_clt_k, "int", "tool"),
     "default": (f_default, "int", "default"), "vf_self": (f_valuefrom_self, "int", "valueFrom"),
     "vf_other": (f_valuefrom_other, "int", "valueFrom"),
+    "vf_chain": (_valuefrom_chain(True), "int", "valueFrom"), "vf_chain_rev": (_valuefrom_chain(False), "int", "valueFrom"),
     "scatter3": (_scatter1(None), "int[]", "scatter"), "scatter0": (_scatter1("e"), "none", "scatter"),
     "scatter1": (_scatter1("one"), "none", "scatter"), "scatter_clt": (_scatter1_clt(None), "int[]", "scatter"),
     "dot": (_scatter2("dotproduct"), "none", "scatter2"), "nested": (_scatter2("nested_crossproduct"), "none", "scatter2"),
